@@ -12,6 +12,10 @@ ToyIn2 == SeqsUpTo({5, 6}, 1, 2) \cup {<<12>>, <<5, 12>>}
 ToyIn2b == SeqsUpTo({5, 6}, 0, 2) \cup {<<9, 5>>}
 ToyOut2 == SeqsUpTo({5, 7}, 0, 2) \cup {<<9, 5>>}
 ToyOut3 == SeqsUpTo({5, 7, 9}, 0, 3)
+\* thorough tier
+ToyIn4 == SeqsUpTo({5, 6, 7}, 1, 4) \cup SeqsUpTo({5, 12}, 1, 3)
+MixIn2 == {<<5, 6>>, <<6, 12>>}
+MixOut2 == {<<7, 5>>, <<9, 5, 5>>}
 None == {<< >>}
 MixIn == {<<5, 6>>}
 MixOut == {<<7, 5>>}
